@@ -315,7 +315,14 @@ func (s *Swap) Export(state *types.AppState) {
 		return false
 	})
 
+	s.muPairs.RLock()
+	pairs := make(map[PairKey]*Pair, len(s.pairs))
 	for key, pair := range s.pairs {
+		pairs[key] = pair
+	}
+	s.muPairs.RUnlock()
+
+	for key, pair := range pairs {
 		if pair == nil {
 			continue
 		}
